@@ -52,6 +52,30 @@ type Run struct {
 	knownFile  []KnownFinding
 	deadline   time.Time
 	capped     []string
+	replaySig  string // replay mode: only this signature counts
+	replayPath string
+}
+
+// SetReplay puts the run into replay mode: the check is executed as usual, but only a violation with the
+// signature stored in the replay file is reported (exit 1 if it is reproduced, 0 otherwise), and the evidence
+// file is left alone.
+func (r *Run) SetReplay(path string) {
+	buf, err := os.ReadFile(path)
+	if err != nil {
+		HarnessError("replay: %v", err)
+	}
+	var f struct {
+		Property  string `json:"property"`
+		Signature string `json:"signature"`
+	}
+	if err := json.Unmarshal(buf, &f); err != nil || f.Signature == "" {
+		HarnessError("replay: %s is not a replay file written by this harness", path)
+	}
+	if f.Property != r.Property {
+		HarnessError("replay: %s belongs to property %s, not %s", path, f.Property, r.Property)
+	}
+	r.replaySig, r.replayPath = f.Signature, path
+	fmt.Printf("replaying %s (signature %s)\n", path, f.Signature)
 }
 
 // Violation is one failing case.
@@ -170,8 +194,11 @@ func (r *Run) Add(states, transitions, traces, evals int64) {
 func (r *Run) Violate(signature, what string, replay any) {
 	r.mu.Lock()
 	defer r.mu.Unlock()
+	if r.replaySig != "" && signature != r.replaySig {
+		return
+	}
 	for _, k := range r.knownFile {
-		if k.Status == "known" && k.Signature == signature {
+		if k.Status == "known" && k.Signature == signature && r.replaySig == "" {
 			line := fmt.Sprintf("KNOWN-FINDING: property=%s %s [%s]", r.Property, k.What, signature)
 			for _, l := range r.known {
 				if l == line {
@@ -212,6 +239,9 @@ func (r *Run) finish() int {
 	os.MkdirAll(filepath.Join(Root, "evidence"), 0o755)
 	os.MkdirAll(filepath.Join(Root, "replays"), 0o755)
 	for i := range r.violations {
+		if r.replaySig != "" {
+			break
+		}
 		v := &r.violations[i]
 		sum := sha256.Sum256([]byte(v.Signature))
 		v.Path = filepath.Join(Root, "replays", fmt.Sprintf("%s-%s.json", r.Property, hex.EncodeToString(sum[:6])))
@@ -255,6 +285,17 @@ func (r *Run) finish() int {
 		evd["known_findings_seen"] = r.known
 	}
 	buf, _ := json.MarshalIndent(evd, "", " ")
+	if r.replaySig != "" {
+		if len(r.violations) == 0 {
+			fmt.Printf("replay: signature %s was NOT reproduced on the current tree\n", r.replaySig)
+			return 0
+		}
+		for _, v := range r.violations {
+			fmt.Printf("replay: reproduced: %s\n", v.What)
+			fmt.Printf("VIOLATION property=%s replay=%s\n", r.Property, r.replayPath)
+		}
+		return 1
+	}
 	if err := os.WriteFile(filepath.Join(Root, "evidence", r.Property+".json"), buf, 0o644); err != nil {
 		fmt.Fprintln(os.Stderr, "harness error: cannot write evidence:", err)
 		return 2
